@@ -2100,6 +2100,28 @@ Proof.
     by (vm_compute; reflexivity). reflexivity.
 Qed.
 
+(* the bytes path of write_meta: JSON bytes (they start with "{" LF) prepared with no encoding in force are
+   terminated by the ASCII LF, and the detected line ending is unix *)
+Lemma prepare_meta_bytes : forall s d r enc ce body lo,
+  d = x7b :: x0a :: r -> eff_enc s enc true = Ok ce -> wv_truthy ce = false ->
+  prepare_content s (CBytes d) WNone WNone enc true = Ok (body, lo) ->
+  body = add_newline [x0a] d /\ lo = WStr (ascii_text GenText.le_unix).
+Proof.
+  intros s d r enc ce body lo Hr Hce Htruthy Hprep.
+  apply prepare_content_unfold in Hprep.
+  destruct Hprep as (enc1 & nl0 & nb & cb & H1 & H2 & H3 & H4 & _ & H6).
+  rewrite Hce in H1. apply Ok_inj in H1. subst enc1.
+  unfold finish_content in H6. cbn [wv_truthy] in H6. apply Ok_inj in H6. subst body.
+  unfold choose_newline in H2. cbn [declared_newline] in H2.
+  unfold newline_encoding_of in H2. rewrite Htruthy in H2.
+  replace (enc_name (WStr (ascii_text (B "ascii")))) with (Ok (Some (B "ascii"))) in H2 by (vm_compute; reflexivity).
+  cbn [bind] in H2. rewrite Hr, guess_json_bytes in H2. cbn [bind fst snd] in H2.
+  apply Ok_inj in H2. injection H2 as <- <-.
+  cbn [encode_newline] in H3. apply Ok_inj in H3. subst nb.
+  cbn [encode_content] in H4. apply Ok_inj in H4. subst cb.
+  rewrite (strip_bom_falsy ce [x0a] Htruthy). rewrite Hr. split; reflexivity.
+Qed.
+
 (* RESTATED for the fixed write_meta (`if not (encoding or self._cur_encoding): content = content.encode('ascii')`).
    The previous statement concluded, for EVERY accepted write_meta, that the effective encoding is a str [e] whose
    codec encodes the JSON text.  That is false of the fixed writer (see [C02_meta_call_old_refuted] below): with no
